@@ -206,6 +206,18 @@ def run(ctx, R, tier):
     ok = valexpr is not None and bool(appends) and all(scfg.guarded(n, lambda e: edge_has_fact(e, bytes_like)) for n in appends)
     R.check(ok, "C06-R3", "encoder|annotation-value-bytes-like", "an annotation value is written only after it was found to be bytes-like", snd.loc(cp),
             "annotation values of any type are joined into the message: the declared chunk length (len(v)) need not be the number of bytes written")
+    # len(v) is the byte count only for byte-sized items: memoryviews with a larger item size are re-cast (or measured with nbytes) before any size is taken
+    casts = [c for c in walk_no_nested(snd.node) if isinstance(c, ast.Call) and isinstance(c.func, ast.Attribute) and c.func.attr == "cast" and c.args
+             and isinstance(c.args[0], ast.Constant) and c.args[0].value in ("B", "b", "c")]
+    nbytes = [x for x in walk_no_nested(snd.node) if isinstance(x, ast.Attribute) and x.attr == "nbytes"]
+    okm = bool(nbytes)
+    if casts and sums:
+        cn = [n for c in casts for n in ctx.node_of(snd, c)]
+        sn = [n for x in sums for n in scfg.nodes_for(enclosing_stmt(x))]
+        okm = all(any(scfg.dominates(a, b) for a in cn) for b in sn)
+    R.check(okm, "C06-R3", "encoder|annotation-sizes-are-byte-counts", "memoryview values are reduced to byte items (or measured with nbytes) before annotations_size is summed", snd.loc(),
+            "annotation sizes are taken with len() of whatever was given: for a memoryview over multi-byte items len() counts items, so the header declares fewer bytes than are written and "
+            "the receiver refuses the sender's own message")
     lits = sorted({n.value for st in addp.node.body for w in walk_no_nested(st) if isinstance(w, ast.While)
                    for n in ast.walk(w) if isinstance(n, ast.Constant) and isinstance(n.value, int) and not isinstance(n.value, bool)})
     R.check(set(lits) <= {coffs[0][1], csize} and csize in lits, "C06-R3", "decoder|chunk-literals", "the decoder's chunk walk uses only the offsets %d and %d" % (coffs[0][1], csize),
